@@ -8,6 +8,8 @@ import sys
 
 prog = os.path.basename(sys.argv[0])
 z = os.environ.get("VSIM_ZSOCK")
+if not z and prog == "vpy":
+    os.execv("/venv/bin/python", ["/venv/bin/python"] + sys.argv[1:])
 if not z:
     mod = "jade.cli.jade" if prog == "jade" else "jade.cli.jade_internal"
     code = f"import sys; sys.argv[0]={prog!r}; from {mod} import cli; cli()"
